@@ -334,6 +334,8 @@ class Cluster:
             elif job.state == JobState.DONE:
                 self._config.completed_jobs += 1
 
+        self._check_config_version("prepare_for_resubmission")
+        self._check_job_status_version("prepare_for_resubmission")
         self._serialize("prepare_for_resubmission")
         self._serialize_jobs("prepare_for_resubmission")
         self.serialize_submission_groups(Path(self._config.path))
@@ -550,12 +552,15 @@ class Cluster:
 
         return True
 
-    def _serialize(self, reason):
+    def _check_config_version(self, reason):
         current = self._get_config_version()
         if self._config.version != current:
             raise ConfigVersionMismatch(
                 f"expected={current} actual={self._config.version} {reason}"
             )
+
+    def _serialize(self, reason):
+        self._check_config_version(reason)
 
         # Check the hash before the version update.
         if hash(self._config.json()) != self._config_hash:
@@ -571,12 +576,15 @@ class Cluster:
                 self._hostname,
             )
 
-    def _serialize_jobs(self, reason):
+    def _check_job_status_version(self, reason):
         current = self._get_job_status_version()
         if self._job_status.version != current:
             raise JobStatusVersionMismatch(
                 f"expected={current} actual={self._job_status.version} {reason}"
             )
+
+    def _serialize_jobs(self, reason):
+        self._check_job_status_version(reason)
 
         # Check the hash before the version update.
         if hash(self._job_status.json()) != self._config_hash:
@@ -649,6 +657,10 @@ class Cluster:
             if job.blocked_by and job.state in (JobState.SUBMITTED, JobState.DONE):
                 job.blocked_by.clear()
 
+        # Reject a stale job status before the config is written so that a rejected update leaves
+        # every file unchanged.
+        self._check_config_version("update_job_status")
+        self._check_job_status_version("update_job_status")
         self._serialize("update_job_status")
         self._serialize_jobs("update_job_status")
 
